@@ -161,7 +161,7 @@ def gen_case(ctx, k):
 
 
 def small(case):
-    return {k: case[k] for k in ("net", "space", "kind", "option", "seed", "dt", "tmax", "state", "max_iter", "edge", "before", "mode", "units", "same_object") if k in case}
+    return {k: case[k] for k in ("net", "space", "kind", "option", "seed", "dt", "tmax", "state", "max_iter", "edge", "before", "mode", "units", "same_object", "mutate_accessors") if k in case}
 
 
 def totals(c, x, n, ns):
@@ -274,6 +274,8 @@ def run(ctx):
             ctx.notes.append("time budget reached after %d of %d scripts" % (c0, len(cases)))
             break
         part = cases[c0:c0 + chunk]
+        for c_ in part:
+            c_["mutate_accessors"] = True
         results = stoch_gen.run_batch("stoch_gen", "child_run_seq", part, kind="shim", timeout=ctx.n(20, 120))
         ops, meta = [], []
         for ci, (case, res) in enumerate(zip(part, results)):
@@ -322,6 +324,15 @@ def run(ctx):
                 ctx.count("scripts_with_chemostats")
             if not vectors:
                 continue
+            if res.get("accessor_diff"):
+                dd = res["accessor_diff"][0]
+                ctx.violation("recorded-data-rewritten-through-accessor:" + option,
+                              "editing in place what get_state / get_trajectory returned changed RDTrajectory.data (sample %d), hence the "
+                              "recorded totals of the conservation laws" % dd["sample"],
+                              dict(small(case), mutate_accessors=True), impl={"changed_entries": res["accessor_diff"]},
+                              expected="RDTrajectory.data bitwise unchanged")
+                continue
+            ctx.count("accessor_results_mutated_data_unchanged")
             got = check_totals(ctx, case, res, vectors, n, ns)
             if got is None:
                 continue
@@ -416,10 +427,12 @@ def run(ctx):
 
 def replay(ctx, rec):
     case = rec.get("case", rec)
-    base = {k: case[k] for k in ("net", "space", "kind", "option", "seed", "dt", "tmax", "state", "max_iter", "edge", "before", "mode", "units", "same_object") if k in case}
+    base = {k: case[k] for k in ("net", "space", "kind", "option", "seed", "dt", "tmax", "state", "max_iter", "edge", "before", "mode", "units", "same_object", "mutate_accessors") if k in case}
     res = stoch_gen.run_batch("stoch_gen", "child_run_seq", [base], kind="shim", timeout=60)[0]
     if res is None or res.get("hang") or "crash" in res or "exception" in res:
         return False, {"case": base, "impl": res}
+    if res.get("accessor_diff"):
+        return False, {"case": base, "recorded_data_changed_by_editing_accessor_results": res["accessor_diff"]}
 
     class _C:
         def __init__(self):
